@@ -26,9 +26,12 @@ LEVEL_TEXT = ('Lean 4 theorems over a line-by-line model of Filenames._newFilena
               'pass bound and reports ValueError when nothing fresh can be formed, a dead generator never issues again, $num runs 1,2,3.. over the '
               'whole history and advances exactly on numbered candidates issued or skipped as taken, static names come first and in order, the '
               'issued alternative is preceded only by unbound or taken ones, and the zero padding / word limit / forbidden-character replacement / '
-              'extension rule of the component functions. That the string-level machinery (findall, format stripping, string.Template substitution) '
-              'computes the template-tree denotation is proved for literal templates only (expand_eq_render_statement is kept as an unproved Prop) and '
-              'is otherwise carried by the correspondence (every history is judged against the tree-level Spec oracle). The template parser (six regexes) is a '
+              'extension rule of the component functions. expand_eq_render proves that on every well-formed template tree the string-level machinery '
+              '(findall, number/word-limit loop, character substitution, format stripping, string.Template substitution) computes the tree denotation; '
+              'request_refines_spec / issued_name_is_spec_name / history_refines_spec prove that the model run on linearised trees is the reference '
+              'generator of the Spec (every issued name is the prescribed one; whole histories agree while no error is reported); the only deviation, '
+              'the lifetime pass counter (O3), is characterised exactly (lifetime_budget_deviation, fails_though_fresh_iff, kernel-checked witness). '
+              'The template parser (six regexes) is a '
               'hand-written lexer validated by differential execution only; the model is tied to the code by differential execution of whole '
               'request histories (exhaustive over a 3-template x 4-binding alphabet to length 5 in the quick tier).')
 LEVEL_NOTE = ('Trusted: Lean kernel (axioms propext, Classical.choice, Quot.sound only), the translator (whitespace table probed from CPython, '
@@ -40,7 +43,7 @@ TRUSTED = ['parseFilenames normalising regexes re-implemented as scanners: tied 
 ASSUMPTIONS = ['template text is ASCII (\\w and \\d of the regexes are modelled on ASCII); variable values are arbitrary strings',
                'at most one [..] group per blank-separated name (a second group makes the code build lists of lists: outside the model, reported as `unsupported`)',
                'in the spec domain: variables named in a template are pairwise distinct, the caller does not bind `num`, the substitute string contains no forbidden character, widths <= 12',
-               'reserved sets are small (<= 8 names), so the lifetime pass counter (observation O3) never reaches the bound except in a request that fails',
+               'reserved sets are small (<= 8 names), so the lifetime pass counter (observation O3, characterised by fails_though_fresh_iff) never makes a generated request fail early',
                'request histories sampled up to length 12 (theorems cover every length)']
 RULE = ('fname cases inside the spec domain (spec defined) whose history has >= 2 requests and issues at least one name; '
         'distinct = distinct driver request line')
